@@ -29,8 +29,11 @@ Definition row_of (ms : list met) (r : crow) : row :=
     end
   end.
 
+(* CQuota: one call of the aggregator's calcHostMetricBudgets (quota-mode sampler, SampleKeys off, real
+   roundSampleFactor with an unseeded rng): rows = (metric, host) reports, obs = (row id, budget handed back, 0 = none) *)
 Inductive case :=
-| CRun (c : cfg) (budget : Z) (ms : list met) (rows : list crow) (m : mode) (perms : list (list Z)) (obs : list obs1).
+| CRun (c : cfg) (budget : Z) (ms : list met) (rows : list crow) (m : mode) (perms : list (list Z)) (obs : list obs1)
+| CQuota (nss groups : bool) (budget : Z) (ms : list met) (rows : list crow) (obs : list (Z * Z)).
 
 Fixpoint nodupb (l : list Z) : bool :=
   match l with [] => true | x :: t => negb (existsb (Z.eqb x) t) && nodupb t end.
@@ -78,8 +81,37 @@ Definition model_outs (c : cfg) (budget : Z) (rows : list row) (m : mode) (perms
   | MRng rd sd => run_all c (ord_of perms) (sel_random (selu_of sd)) rf_random budget rows rd
   end.
 
+(* all up/down outcomes of up to 7 roundSampleFactor calls: draw 0 rounds up (when there is a fraction), draw 1 down *)
+Fixpoint draw_lists (n : nat) : list (list Q) :=
+  match n with
+  | O => [[]]
+  | S k => flat_map (fun l => [0%Q :: l; 1%Q :: l]) (draw_lists k)
+  end.
+
+(* keepF of calcHostMetricBudgets: "quota *= 2" when the reported size fits the quota *)
+Definition host_budget (rows : list row) (o : out) : Z :=
+  if o_kept o then
+    match find (fun r => r_id r =? o_id o) rows with
+    | Some r => if r_size r <=? o_quota o then 2 * o_quota o else o_quota o
+    | None => -1
+    end
+  else 0.
+
+Definition quota_matches (rows : list row) (outs : list out) (ob : Z * Z) : bool :=
+  match find (fun o => o_id o =? fst ob) outs with
+  | Some o => host_budget rows o =? snd ob
+  | None => false
+  end.
+
 Definition ok_variant (f : bool) (cs : case) : bool :=
   match cs with
+  | CQuota nss groups budget ms crows obs =>
+    let rows := map (row_of ms) crows in
+    let c := mkcfg false false false false nss groups false true f in
+    (length obs =? length rows)%nat && nodupb (map fst obs) &&
+    existsb (fun dr =>
+      let outs := run_all c (fun _ l => l) sel_det rf_random budget rows dr in
+      (length outs =? length obs)%nat && forallb (quota_matches rows outs) obs) (draw_lists 7)
   | CRun c budget ms crows m perms obs0 =>
     let rows := map (row_of ms) crows in
     let obs := map obs_tuple obs0 in
